@@ -412,4 +412,171 @@ theorem sub_rt_aux (envW envR : Env) (henv : ∀ n, sub (envR n) (envW n) = true
     intro r w v rest hs h
     exact body_sub_rt _ _ _ (fun n v rest hw => ih (envR n) (envW n) v rest (henv n) hw) r w v rest hs h
 
+/-! ## environments given as association lists -/
+
+theorem env_sub (l : List (String × C × C)) (h : (l.all fun e => sub e.2.2 e.2.1) = true) :
+    ∀ n, sub (envOfR l n) (envOfW l n) = true := by
+  intro n
+  unfold envOfR envOfW
+  cases hf : l.find? (fun e => e.1 == n) with
+  | none => rfl
+  | some e =>
+    have hm : e ∈ l := List.mem_of_find?_eq_some hf
+    exact List.all_eq_true.mp h e hm
+
+/-! ## sorted-key maps: bytes do not depend on insertion order -/
+
+theorem bytesLt_irrefl : ∀ a : List Nat, bytesLt a a = false := by
+  intro a
+  induction a with
+  | nil => rfl
+  | cons x xs ih => simp [bytesLt, ih]
+
+theorem bytesLt_asymm : ∀ a b : List Nat, bytesLt a b = true → bytesLt b a = false := by
+  intro a
+  induction a with
+  | nil => intro b h; cases b <;> simp [bytesLt] at h ⊢
+  | cons x xs ih =>
+    intro b h
+    cases b with
+    | nil => simp [bytesLt] at h
+    | cons y ys =>
+      simp only [bytesLt] at h ⊢
+      by_cases h1 : x < y
+      · have : ¬ y < x := by omega
+        simp [this, h1]
+      · by_cases h2 : y < x
+        · simp [h1, h2] at h
+        · simp only [h1, h2, if_false] at h ⊢
+          exact ih ys h
+
+theorem bytesLt_total : ∀ a b : List Nat, a ≠ b → bytesLt a b = true ∨ bytesLt b a = true := by
+  intro a
+  induction a with
+  | nil => intro b h; cases b with
+    | nil => exact absurd rfl h
+    | cons y ys => left; rfl
+  | cons x xs ih =>
+    intro b h
+    cases b with
+    | nil => right; rfl
+    | cons y ys =>
+      simp only [bytesLt]
+      by_cases h1 : x < y
+      · left; simp [h1]
+      · by_cases h2 : y < x
+        · right; simp [h2]
+        · have hxy : x = y := by omega
+          subst hxy
+          have hne : xs ≠ ys := fun e => h (by rw [e])
+          simp only [h1, if_false]
+          exact ih ys hne
+
+theorem bytesLt_trans : ∀ a b c : List Nat, bytesLt a b = true → bytesLt b c = true → bytesLt a c = true := by
+  intro a
+  induction a with
+  | nil =>
+    intro b c h1 h2
+    cases b with
+    | nil => simp [bytesLt] at h1
+    | cons y ys => cases c with
+      | nil => simp [bytesLt] at h2
+      | cons z zs => rfl
+  | cons x xs ih =>
+    intro b c h1 h2
+    cases b with
+    | nil => simp [bytesLt] at h1
+    | cons y ys =>
+      cases c with
+      | nil => simp [bytesLt] at h2
+      | cons z zs =>
+        simp only [bytesLt] at h1 h2 ⊢
+        by_cases a1 : x < y
+        · by_cases b1 : y < z
+          · have : x < z := by omega
+            simp [this]
+          · by_cases b2 : z < y
+            · simp [b1, b2] at h2
+            · have : y = z := by omega
+              subst this; simp [a1]
+        · by_cases a2 : y < x
+          · simp [a1, a2] at h1
+          · have hxy : x = y := by omega
+            subst hxy
+            simp only [a1, if_false] at h1
+            by_cases b1 : x < z
+            · simp [b1]
+            · by_cases b2 : z < x
+              · simp [b1, b2] at h2
+              · simp only [b1, b2, if_false] at h2 ⊢
+                exact ih ys zs h1 h2
+
+/-- `¬ z < x` means `x ≤ z` -/
+theorem bytesLt_of_not (x z y : Bytes) (h1 : bytesLt z x = false) (h2 : bytesLt z y = true) : bytesLt x y = true := by
+  by_cases e : x = z
+  · subst e; exact h2
+  · cases bytesLt_total x z e with
+    | inl h => exact bytesLt_trans x z y h h2
+    | inr h => rw [h] at h1; cases h1
+
+theorem insertKV_comm (x y : Bytes × Val) (hk : x.1 ≠ y.1) : ∀ l,
+    insertKV x (insertKV y l) = insertKV y (insertKV x l) := by
+  intro l
+  induction l with
+  | nil =>
+    simp only [insertKV]
+    cases hxy : bytesLt x.1 y.1 with
+    | true =>
+      have := bytesLt_asymm _ _ hxy
+      simp [this]
+    | false =>
+      cases bytesLt_total x.1 y.1 hk with
+      | inl h => rw [h] at hxy; cases hxy
+      | inr h => simp [h]
+  | cons z zs ih =>
+    simp only [insertKV]
+    cases hzy : bytesLt z.1 y.1 with
+    | true =>
+      cases hzx : bytesLt z.1 x.1 with
+      | true => simp [insertKV, hzx, hzy, ih]
+      | false =>
+        have hxy : bytesLt x.1 y.1 = true := bytesLt_of_not _ _ _ hzx hzy
+        simp [insertKV, hzx, hzy, hxy]
+    | false =>
+      cases hzx : bytesLt z.1 x.1 with
+      | true =>
+        have hyx : bytesLt y.1 x.1 = true := bytesLt_of_not _ _ _ hzy hzx
+        simp [insertKV, hzx, hzy, hyx]
+      | false =>
+        cases hxy : bytesLt x.1 y.1 with
+        | true =>
+          have := bytesLt_asymm _ _ hxy
+          simp [insertKV, this, hzy, hzx, hxy]
+        | false =>
+          cases bytesLt_total x.1 y.1 hk with
+          | inl h => rw [h] at hxy; cases hxy
+          | inr h => simp [insertKV, h, hzx, hzy, hxy]
+
+/-- distinct keys -/
+def KeysNodup (m : List (Bytes × Val)) : Prop := (m.map (·.1)).Nodup
+
+theorem sortKV_perm {m1 m2 : List (Bytes × Val)} (hp : m1.Perm m2) (hd : KeysNodup m1) :
+    sortKV m1 = sortKV m2 := by
+  induction hp with
+  | nil => rfl
+  | cons x _ ih =>
+    simp only [sortKV]
+    rw [ih (by unfold KeysNodup at hd ⊢; simp only [List.map_cons, List.nodup_cons] at hd; exact hd.2)]
+  | swap x y l =>
+    simp only [sortKV]
+    apply insertKV_comm
+    unfold KeysNodup at hd
+    simp only [List.map_cons, List.nodup_cons, List.mem_cons, not_or] at hd
+    exact fun e => hd.1.1 e
+  | trans h1 _ ih1 ih2 =>
+    rw [ih1 hd]
+    apply ih2
+    unfold KeysNodup at hd ⊢
+    exact (h1.map _).nodup_iff.mp hd
+
 end Codec
